@@ -251,6 +251,49 @@ def judge_state(ctx, case, cfgd, cfg, unode, U, u, shadow, viol, step):
     return True
 
 
+def position_independent(ctx, unode, U, shadow, viol, rng):
+    """A fixed-size union read from a stream consumes exactly its size wherever it starts (aligned or not), the
+    members are the same views of the same bytes, and the elements of an array of unions follow each other at
+    that size."""
+    import io
+
+    if U.size is None:
+        return
+    base = bytes(shadow)
+    try:
+        want = lib.nan_clean(lib.norm(U(base), unode, strict=False))
+    except Exception:  # noqa: BLE001
+        return
+    n = len(U)
+    for p in (0, rng.randint(1, 40) | 1, rng.choice([2, 4, 12]), 16 * rng.randint(1, 4)):
+        s = io.BytesIO(bytes([0x5A]) * p + base + base + b"\xa5" * 8)
+        for count in (1, 2):
+            s.seek(p)
+            what = "union" if count == 1 else "array-of-unions"
+            try:
+                got = U(s) if count == 1 else U[2](s)
+            except Exception as e:  # noqa: BLE001
+                viol("position", f"{what}-parse-fails-away-from-position-0:{type(e).__name__}", position=p,
+                     shadow=base, error=lib.exc_sig(e))
+                return
+            ctx.evaluation(("position", base.hex(), p, count, U.__name__, n))
+            if s.tell() != p + count * n:
+                viol("position", f"{what}-parse-consumes-other-than-its-size", position=p, consumed=s.tell() - p,
+                     size=count * n, shadow=base)
+                return
+            for el in ([got] if count == 1 else list(got)):
+                try:
+                    g = lib.nan_clean(lib.norm(el, unode, strict=False))
+                except lib.NormError as e:
+                    viol("norm", "unexpected-value-kind", step="position", error=str(e))
+                    return
+                if g != want:
+                    viol("position", f"{what}-members-depend-on-stream-position", position=p, shadow=base,
+                         got=g, want=want)
+                    return
+        ctx.event("union_positions_checked")
+
+
 def check_case(ctx, case, upath, rng):
     top = case["top"]
     unode = union_node(top, upath)
@@ -294,6 +337,7 @@ def check_case(ctx, case, upath, rng):
         shadow = bytearray(inp[uoff:uoff + ulay["size"]])
         if not judge_state(ctx, case, cfgd, cfg, unode, U, u, shadow, viol, "after-parse"):
             continue
+        position_independent(ctx, unode, U, shadow, viol, rng)
         # assignment history
         targets = assign_targets(unode)
         if not targets:
